@@ -330,6 +330,8 @@ def run_world(spec, argv, child_hook=None, warnings=None, probe=True,
         worldrt.PROBE = _probe
     else:
         worldrt.PROBE = None
+    saved_fd2 = worldrt.FD2
+    worldrt.FD2 = lambda text: CUR_ERR.write(text)
     R.subprocess = _SubprocessShim()
     R.threading = _ThreadingShim()
     R.time = _TimeShim()
@@ -360,6 +362,7 @@ def run_world(spec, argv, child_hook=None, warnings=None, probe=True,
         # the Logging feature adds a NullHandler per run and never removes it
         root_logger.handlers[:] = saved_handlers
         worldrt.TRACE, worldrt.VPID, worldrt.PROBE = saved_trace
+        worldrt.FD2 = saved_fd2
         worldrt.uninstall(prev_mod)
         CUR_OUT, CUR_ERR = saved_cur
         _CTX.pop()
